@@ -1,19 +1,18 @@
 //! C19 — `$ENV{NAME}` path expansion. Real code: `env_util::expand_env_vars` through the
-//! `verif_hooks::expand_env_vars` re-export (fast path), and its three call sites
-//! `FileAppender::builder().build`, `RollingFileAppender::builder().build` and
-//! `FixedWindowRoller::roll` (observation = which files exist afterwards), each of them both through
-//! the builder API and through a configuration FILE (`load_config_file` + `Logger::new` + one record
-//! per roll): kinds `file-cfg`, `rolling-cfg`, `roller-cfg`. The two rolling kinds run a HISTORY
-//! (size trigger limit 2, one byte per record, fixed-window roller count 2 or delete roller) and
-//! observe after build and after every append which files exist, their content, and which file the
-//! process holds open (`/proc/self/fd`).
-//!
-//! The environment may hold variables that are not valid Unicode (entries `b:<name>;<value>` as
-//! bytes): bystanders the path never names, and referenced variables with a non-UTF-8 value.
+//! `verif_hooks::expand_env_vars` re-export (fast path), and its call sites: `FileAppender`,
+//! `RollingFileAppender` and `FixedWindowRoller`, each through the builder API and through a
+//! configuration FILE (`load_config_file` + `Logger::new`; YAML, for the file appender also JSON
+//! and TOML). Observation of the call-site kinds = the TREE of the scratch directory afterwards:
+//! directories, files and their content (so that a directory created at a wrong place and a write
+//! landing elsewhere are seen); the rolling kinds run a HISTORY (size trigger: limit 2, one byte
+//! per record; or time trigger = pre-process branch, clock hook) and observe the tree and the file
+//! the process holds open (`/proc/self/fd`) after build and after every append.
 //!
 //! The process environment is controlled: at the first case every inherited variable is removed,
 //! and around each case exactly the variables the case carries are installed and removed again
-//! (`exec` is single-threaded).
+//! (`exec` is single-threaded). Variables may be byte strings that are not valid UTF-8.
+//! A value or path that starts with `/SCRATCH` stands for the absolute scratch directory.
+//! A trailing field `@bg` marks cases for the harness build with `background_rotation`.
 use crate::proto::*;
 use crate::rng::Rng;
 use log4rs::append::file::FileAppender;
@@ -22,6 +21,8 @@ use log4rs::append::rolling_file::policy::compound::{
     trigger::size::SizeTrigger,
     CompoundPolicy,
 };
+use log4rs::append::rolling_file::policy::compound::trigger::time::{TimeTrigger, TimeTriggerInterval};
+use log4rs::append::rolling_file::policy::compound::trigger::Trigger;
 use log4rs::append::rolling_file::RollingFileAppender;
 use log4rs::append::Append;
 use log4rs::encode::pattern::PatternEncoder;
@@ -29,7 +30,7 @@ use std::ffi::OsString;
 use std::os::unix::ffi::OsStringExt;
 use log4rs::config::{load_config_file, Deserializers};
 use std::path::{Path, PathBuf};
-use std::sync::atomic::{AtomicUsize, Ordering};
+use std::sync::atomic::{AtomicI64, AtomicUsize, Ordering};
 use std::sync::OnceLock;
 
 /// Non-ASCII sample characters with their `char::is_alphanumeric` value — the same table as
@@ -48,7 +49,21 @@ const SAMPLES: &[(u32, bool)] = &[
     (0xA0, false),
     (0x1F600, false),
     (0x301, false),
+    (0xFFFD, false),
 ];
+
+/// `std::env::var` must answer `Err` — not panic — for names `getenv` cannot hold
+fn check_env_var_contract() {
+    for name in ["", "A=B", "=", "a\0b", "\0"] {
+        match std::panic::catch_unwind(|| std::env::var(name)) {
+            Ok(Err(_)) => {}
+            other => {
+                eprintln!("C19: std::env::var({:?}) = {:?}, the model says Err without panic", name, other.map(|r| r.is_ok()));
+                std::process::exit(2);
+            }
+        }
+    }
+}
 
 fn check_samples() {
     for (cp, want) in SAMPLES {
@@ -318,31 +333,146 @@ fn enc_env(env: &[(String, String)]) -> String {
     enc_list(",", &env.iter().map(|(k, v)| format!("{};{}", enc_str(k), enc_str(v))).collect::<Vec<_>>())
 }
 
-/// small-scope block: every token sequence up to `len` over a fixed alphabet, env A=E, B=v
-fn exhaustive(len: usize, emit: &mut dyn FnMut(String)) {
+/// small-scope block: every token sequence up to `len` over a fixed alphabet, under `env`, through `kind`
+fn exhaustive(kind: &str, env: &[(String, String)], len: usize, emit: &mut dyn FnMut(String)) {
     const ALPHA: &[&str] = &["$", "$ENV{", "A", "}", "NV{B}", "$ENV{A}", "$ENV{B}", "{", "E", "x"];
-    let env = enc_env(&[("A".to_owned(), "E".to_owned()), ("B".to_owned(), "v".to_owned())]);
+    let env = enc_env(env);
     let mut idx: Vec<usize> = Vec::new();
-    fn rec(idx: &mut Vec<usize>, len: usize, env: &str, emit: &mut dyn FnMut(String)) {
+    fn rec(kind: &str, idx: &mut Vec<usize>, len: usize, env: &str, emit: &mut dyn FnMut(String)) {
         if !idx.is_empty() {
             let s: String = idx.iter().map(|i| ALPHA[*i]).collect();
-            emit(format!("hook\t{}\t{}", env, enc_str(&s)));
+            emit(format!("{}\t{}\t{}", kind, env, enc_str(&s)));
         }
         if idx.len() == len {
             return;
         }
         for i in 0..ALPHA.len() {
             idx.push(i);
-            rec(idx, len, env, emit);
+            rec(kind, idx, len, env, emit);
             idx.pop();
         }
     }
-    rec(&mut idx, len, &env, emit);
+    rec(kind, &mut idx, len, &env, emit);
+}
+
+fn pair(k: &str, v: &str) -> (String, String) {
+    (k.to_owned(), v.to_owned())
+}
+
+const DIRVALS: &[&str] = &["d", "d/e", "/SCRATCH/abs", "/SCRATCH", "\u{e9}", "d/", "a/../b", "d//e", "./d", "d/./e"];
+const DIRVALS_REL: &[&str] = &["d", "d/e", "\u{e9}", "d/", "a/../b", "d//e", "./d"];
+const FILEVALS_REL: &[&str] = &["x.log", "e/x.log", "x", "\u{4e2d}.log"];
+
+/// structured appender paths: the standard use (`$ENV{DIR}/logs/app.log`), the whole path one
+/// reference, absolute locations, `..`, `//`, `.`, trailing `/`, a value containing `$`, …
+fn site_path(rng: &mut Rng) -> (Vec<(String, String)>, String) {
+    let d = *rng.pick(DIRVALS);
+    let dr = *rng.pick(DIRVALS_REL);
+    let f = *rng.pick(FILEVALS_REL);
+    match rng.below(13) {
+        0 | 1 => (vec![pair("VP_DIR", d)], "$ENV{VP_DIR}/logs/app.log".to_owned()),
+        2 => (vec![pair("VP_FILE", *rng.pick(&["x.log", "d/e/x.log", "/SCRATCH/a/x.log"]))], "$ENV{VP_FILE}".to_owned()),
+        3 => (vec![pair("VP_DIR", d), pair("VP_FILE", f)], "$ENV{VP_DIR}/$ENV{VP_FILE}".to_owned()),
+        4 => (vec![pair("VP_FILE", f)], "a/../b/$ENV{VP_FILE}".to_owned()),
+        5 => (vec![pair("VP_FILE", f)], format!("{}$ENV{{VP_FILE}}", *rng.pick(&["logs//", "./", "logs/./", "logs///"]))),
+        6 => (vec![pair("VP_DIR", dr)], "logs/$ENV{VP_DIR}/".to_owned()),
+        7 => (vec![pair("A", "$ENV{B}/x.log"), pair("B", "v")], "$ENV{A}".to_owned()),
+        8 => (vec![pair("B", "v")], "$ENV{VP_UNSET}/x.log".to_owned()),
+        9 => (vec![pair("VP_DIR", "d/")], "$ENV{VP_DIR}x.log".to_owned()),
+        10 => (vec![pair("VP_FILE", f)], "/SCRATCH/abs/$ENV{VP_FILE}".to_owned()),
+        11 => (vec![pair("VP_DIR", dr)], "$ENV{VP_DIR}/..".to_owned()),
+        _ => (vec![pair("VP_DIR", d), pair("A", "v")], "$ENV{VP_DIR}/$ENV{A}/$ENV{A}.log".to_owned()),
+    }
+}
+
+/// structured roller patterns: (env, pattern, base, count)
+fn roller_pattern(rng: &mut Rng) -> (Vec<(String, String)>, String, u64, u64) {
+    let d = *rng.pick(DIRVALS);
+    let f = *rng.pick(FILEVALS_REL);
+    let base = *rng.pick(&[0u64, 0, 1, 7]);
+    let count = rng.range(0, 3);
+    match rng.below(9) {
+        0 | 1 => (vec![pair("VP_RDIR", d)], "$ENV{VP_RDIR}/arch.{}.log".to_owned(), base, count),
+        2 => (vec![pair("VP_RFILE", f)], "arch/{}/$ENV{VP_RFILE}".to_owned(), base, count),
+        3 => (
+            vec![pair("A0", "s0"), pair("A1", "s1/t"), pair("A2", "s2"), pair("A3", "s3/t")],
+            "$ENV{A{}}/x.log".to_owned(),
+            *rng.pick(&[0u64, 1]),
+            count,
+        ),
+        4 => (vec![pair("VP_X", *rng.pick(&["gz", "log.gz", "zst"]))], "a.{}.$ENV{VP_X}".to_owned(), base, count),
+        5 => {
+            if rng.chance(1, 2) {
+                (vec![], "arch.log".to_owned(), base, count)
+            } else {
+                // the placeholder only arrives through a value: the builder looks at the pattern text
+                (vec![pair("VP_BR", "{}")], "a.$ENV{VP_BR}".to_owned(), base, count)
+            }
+        }
+        6 => (vec![], "a.{}".to_owned(), 4294967295, *rng.pick(&[1u64, 2, 3])),
+        7 => (vec![pair("VP_RDIR", d)], "$ENV{VP_RDIR}/{}".to_owned(), base, count),
+        _ => (vec![], "/SCRATCH/abs/a.{}".to_owned(), base, count),
+    }
 }
 
 pub fn gen(rng: &mut Rng, n: usize, thorough: bool, emit: &mut dyn FnMut(String)) {
     let (max_env, max_tokens) = if thorough { (5, 14) } else { (3, 8) };
-    exhaustive(if thorough { 4 } else { 3 }, emit);
+    let e1 = vec![pair("A", "E"), pair("B", "v")];
+    let e2 = vec![pair("A", ""), pair("B", "ENV{A}")];
+    let e3 = vec![pair("A", "B}"), pair("B", "$ENV{A}")];
+    exhaustive("hook", &e1, if thorough { 4 } else { 3 }, emit);
+    exhaustive("hook", &e2, if thorough { 3 } else { 2 }, emit);
+    exhaustive("hook", &e3, if thorough { 3 } else { 2 }, emit);
+    exhaustive("file", &e1, 2, emit);
+    exhaustive("file", &e2, if thorough { 2 } else { 1 }, emit);
+    if thorough {
+        exhaustive("file-cfg", &e1, 2, emit);
+    }
+    // values containing `$` are never scanned again (outside the property's quantifier, inside the theorem)
+    {
+        let env = vec![pair("A", "$ENV{B}"), pair("B", "v"), pair("C", "$"), pair("D", "x$ENV{")];
+        for body in ["x$ENV{A}y$ENV{B}", "$ENV{A}", "$ENV{C}ENV{B}", "$ENV{D}B}", "$ENV{C}$ENV{C}"] {
+            emit(format!("hook\t{}\t{}", enc_env(&env), enc_str(body)));
+            emit(format!("file\t{}\t{}", enc_env(&env), enc_str(&format!("p{}q.log", body))));
+        }
+    }
+    // an `OsStr` path that is not valid UTF-8 goes through `to_string_lossy` before the expansion
+    {
+        let env = enc_env(&[pair("A", "v")]);
+        for bytes in [&b"p\xffq.log"[..], b"d\xe9/x$ENV{A}.log", b"$ENV{A}/caf\xe9.log", b"\xe4\xb8/x", b"a\xed\xa0\x80b", b"\xf0\x9f\x98$ENV{A}"] {
+            emit(format!("file-os\t{}\t{}", env, enc_bytes(bytes)));
+        }
+    }
+    // structured call-site cases, every shape several times, every kind
+    for round in 0..(if thorough { 40 } else { 6 }) {
+        for kind in ["file", "file-cfg", "file-json", "file-toml"] {
+            let (env, path) = site_path(rng);
+            emit(format!("{}\t{}\t{}", kind, enc_env(&env), enc_str(&path)));
+        }
+        for kind in ["rolling", "rolling-cfg"] {
+            let (mut env, path) = site_path(rng);
+            let roller = if rng.chance(2, 3) { "fw" } else { "del" };
+            let (pat, trig) = if rng.chance(1, 2) {
+                let (penv, pat, _, _) = roller_pattern(rng);
+                for e in penv {
+                    if !env.iter().any(|x| x.0 == e.0) {
+                        env.push(e);
+                    }
+                }
+                (enc_str(&pat), if rng.chance(1, 2) { "time" } else { "size" })
+            } else {
+                ("-".to_owned(), if rng.chance(1, 3) { "time" } else { "size" })
+            };
+            let appends = *rng.pick(&[3u64, 4, 7, 8, 9]);
+            let bg = if roller == "fw" && round % 3 == 2 { "\t@bg" } else { "" };
+            emit(format!("{}\t{}\t{}\t{}\t{}\t{}\t{}{}", kind, enc_env(&env), enc_str(&path), roller, appends, pat, trig, bg));
+        }
+        for kind in ["roller", "roller-cfg"] {
+            let (env, pat, base, count) = roller_pattern(rng);
+            let bg = if round % 3 == 1 { "\t@bg" } else { "" };
+            emit(format!("{}\t{}\t{}\t{}\t{}\t{}{}", kind, enc_env(&env), enc_str(&pat), base, count, rng.range(1, 4), bg));
+        }
+    }
     // every malformed form and every name/value pair once, deterministically
     for n in NAMES {
         for v in ["v", "", "\u{4e2d}"] {
@@ -410,9 +540,43 @@ pub fn gen(rng: &mut Rng, n: usize, thorough: bool, emit: &mut dyn FnMut(String)
         }
     }
     for i in 0..n {
-        // one case in 20 goes through a call site (builder API or configuration file)
-        const KINDS: [&str; 6] = ["file", "file-cfg", "rolling", "rolling-cfg", "roller", "roller-cfg"];
-        let kind = if i % 20 == 19 { KINDS[(i / 20) % 6] } else { "hook" };
+        // one case in 5 (thorough: 10) goes through a call site (builder API or configuration file)
+        const KINDS: [&str; 8] = ["file", "file-cfg", "rolling", "rolling-cfg", "roller", "roller-cfg", "file-json", "file-toml"];
+        let every = if thorough { 10 } else { 5 };
+        let kind = if i % every == every - 1 { KINDS[(i / every) % 8] } else { "hook" };
+        // half of the call-site cases are structured (leading reference, absolute, `..`, …)
+        if kind != "hook" && rng.chance(1, 2) {
+            let bg = if rng.chance(1, 6) { "\t@bg" } else { "" };
+            match kind {
+                "rolling" | "rolling-cfg" => {
+                    let (mut env, path) = site_path(rng);
+                    let roller = if rng.chance(2, 3) { "fw" } else { "del" };
+                    let (pat, trig) = if rng.chance(1, 2) {
+                        let (penv, pat, _, _) = roller_pattern(rng);
+                        for e in penv {
+                            if !env.iter().any(|x| x.0 == e.0) {
+                                env.push(e);
+                            }
+                        }
+                        (enc_str(&pat), if rng.chance(1, 2) { "time" } else { "size" })
+                    } else {
+                        ("-".to_owned(), if rng.chance(1, 3) { "time" } else { "size" })
+                    };
+                    let appends = *rng.pick(&[3u64, 4, 7, 8, 9]);
+                    let bg = if roller == "fw" { bg } else { "" };
+                    emit(format!("{}\t{}\t{}\t{}\t{}\t{}\t{}{}", kind, enc_env(&env), enc_str(&path), roller, appends, pat, trig, bg));
+                }
+                "roller" | "roller-cfg" => {
+                    let (env, pat, base, count) = roller_pattern(rng);
+                    emit(format!("{}\t{}\t{}\t{}\t{}\t{}{}", kind, enc_env(&env), enc_str(&pat), base, count, rng.range(1, 4), bg));
+                }
+                _ => {
+                    let (env, path) = site_path(rng);
+                    emit(format!("{}\t{}\t{}", kind, enc_env(&env), enc_str(&path)));
+                }
+            }
+            continue;
+        }
         let fs = kind != "hook";
         let mut env = gen_env(rng, max_env, fs);
         let mut body = gen_path(rng, &mut env, if fs { max_tokens.min(6) } else { max_tokens }, fs);
@@ -429,7 +593,9 @@ pub fn gen(rng: &mut Rng, n: usize, thorough: bool, emit: &mut dyn FnMut(String)
         let e = enc_env2(&env, &foreign);
         match kind {
             "hook" => emit(format!("hook\t{}\t{}", e, enc_str(&body))),
-            "file" | "file-cfg" => emit(format!("{}\t{}\t{}", kind, e, enc_str(&format!("p{}q.log", body)))),
+            "file" | "file-cfg" | "file-json" | "file-toml" => {
+                emit(format!("{}\t{}\t{}", kind, e, enc_str(&format!("p{}q.log", body))))
+            }
             "rolling" | "rolling-cfg" => {
                 // enough appends for two rolls (three one-byte records each) and some more
                 let roller = if rng.chance(1, 2) { "fw" } else { "del" };
@@ -457,10 +623,14 @@ pub fn gen(rng: &mut Rng, n: usize, thorough: bool, emit: &mut dyn FnMut(String)
 // ---------------------------------------------------------------------------------------------
 static SCRATCH: OnceLock<PathBuf> = OnceLock::new();
 static COUNTER: AtomicUsize = AtomicUsize::new(0);
+/// the clock the time trigger sees (hook `set_now`)
+static NOW: AtomicI64 = AtomicI64::new(T0);
+const T0: i64 = 1_700_000_000;
 
 fn init() -> &'static PathBuf {
     SCRATCH.get_or_init(|| {
         check_samples();
+        check_env_var_contract();
         let scratch = std::env::var_os("VERIF_SCRATCH").map(PathBuf::from).unwrap_or_else(std::env::temp_dir);
         // the case's environment is the whole environment
         let keys: Vec<_> = std::env::vars_os().map(|(k, _)| k).collect();
@@ -470,24 +640,30 @@ fn init() -> &'static PathBuf {
             }
         }
         std::fs::create_dir_all(&scratch).ok();
-        scratch
+        log4rs::verif_hooks::set_now(Some(std::sync::Arc::new(|| Some((NOW.load(Ordering::SeqCst), 0)))));
+        std::fs::canonicalize(&scratch).unwrap_or(scratch)
     })
 }
 
-fn dec_env(s: &str) -> Option<Vec<(OsString, OsString)>> {
+enum EnvEntry {
+    Text(String, String),
+    Bytes(Vec<u8>, Vec<u8>),
+}
+
+fn dec_env(s: &str) -> Option<Vec<EnvEntry>> {
     dec_list(',', s)
         .iter()
         .map(|e| {
             if let Some(rest) = e.strip_prefix("b:") {
                 let mut it = rest.split(';');
                 match (it.next(), it.next(), it.next()) {
-                    (Some(k), Some(v), None) => Some((OsString::from_vec(dec_bytes(k)?), OsString::from_vec(dec_bytes(v)?))),
+                    (Some(k), Some(v), None) => Some(EnvEntry::Bytes(dec_bytes(k)?, dec_bytes(v)?)),
                     _ => None,
                 }
             } else {
                 let mut it = e.split(';');
                 match (it.next(), it.next(), it.next()) {
-                    (Some(k), Some(v), None) => Some((OsString::from(dec_str(k)?), OsString::from(dec_str(v)?))),
+                    (Some(k), Some(v), None) => Some(EnvEntry::Text(dec_str(k)?, dec_str(v)?)),
                     _ => None,
                 }
             }
@@ -495,98 +671,21 @@ fn dec_env(s: &str) -> Option<Vec<(OsString, OsString)>> {
         .collect()
 }
 
-fn list_files(root: &Path, rel: &str, out: &mut Vec<(String, Vec<u8>)>) {
-    let mut entries: Vec<_> = match std::fs::read_dir(root) {
-        Ok(r) => r.filter_map(|e| e.ok()).collect(),
-        Err(_) => return,
-    };
-    entries.sort_by_key(|e| e.file_name());
-    for e in entries {
-        let name = e.file_name().to_string_lossy().into_owned();
-        let rel2 = if rel.is_empty() { name.clone() } else { format!("{}/{}", rel, name) };
-        let p = e.path();
-        if p.is_dir() {
-            list_files(&p, &rel2, out);
-        } else {
-            out.push((rel2, std::fs::read(&p).unwrap_or_default()));
-        }
+/// `/SCRATCH…` at the start of a value or path = the absolute scratch directory of the case
+fn subst_scratch(s: &str, dir: Option<&Path>) -> String {
+    match (dir, s.strip_prefix("/SCRATCH")) {
+        (Some(d), Some(rest)) => format!("{}{}", d.to_string_lossy(), rest),
+        _ => s.to_owned(),
     }
 }
 
-#[derive(Clone, Copy, PartialEq)]
-enum Content {
-    /// only which files exist
-    None,
-    /// the bytes of every file
-    Raw,
-    /// files hold a decimal number (the record text): print that number
-    Digits,
-}
-
-/// Runs `f` with a fresh scratch directory as current directory; `f` gets the path of a (not yet
-/// existing) configuration file OUTSIDE that directory. Observation = the files found afterwards.
-fn in_scratch(f: impl FnOnce(&Path) -> Result<(), String> + std::panic::UnwindSafe, content: Content) -> String {
-    let root = init();
-    let n = COUNTER.fetch_add(1, Ordering::SeqCst);
-    let dir = root.join(format!("c19_{}_{}", std::process::id(), n));
-    let cfg = root.join(format!("c19_{}_{}.yaml", std::process::id(), n));
-    if std::fs::create_dir_all(&dir).is_err() || std::env::set_current_dir(&dir).is_err() {
-        return "scratch-error".to_owned();
-    }
-    let cfg2 = cfg.clone();
-    let r = guarded(move || f(&cfg2));
-    let mut files = Vec::new();
-    list_files(&dir, "", &mut files);
-    let _ = std::env::set_current_dir(root);
-    let _ = std::fs::remove_dir_all(&dir);
-    let _ = std::fs::remove_file(&cfg);
-    match r {
-        Err(_) => "PANIC".to_owned(),
-        Ok(Err(_)) => "err".to_owned(),
-        Ok(Ok(())) => {
-            let mut items: Vec<String> = files
-                .iter()
-                .map(|(p, c)| match content {
-                    Content::None => enc_str(p),
-                    Content::Raw => {
-                        format!("{}={}", enc_str(p), c.iter().map(|b| b.to_string()).collect::<Vec<_>>().join(","))
-                    }
-                    Content::Digits => match std::str::from_utf8(c).ok().and_then(|t| t.parse::<u32>().ok()) {
-                        Some(k) => format!("{}={}", enc_str(p), k),
-                        None => format!("{}=x{}", enc_str(p), enc_bytes(c)),
-                    },
-                })
-                .collect();
-            items.sort();
-            if content == Content::None {
-                format!("created:{}", enc_list(",", &items))
-            } else {
-                format!("files:{}", enc_list(",", &items))
-            }
-        }
-    }
-}
-
-/// a YAML double-quoted scalar (the JSON string syntax is a subset of it)
-fn yaml_str(s: &str) -> String {
-    serde_json::to_string(s).unwrap()
-}
-
-/// load the configuration file, build the logger (not installed globally), log `records` records
-/// whose text is their number
-fn run_config(cfg: &Path, yaml: &str, records: u32) -> Result<(), String> {
-    std::fs::write(cfg, yaml).map_err(|e| e.to_string())?;
-    let config = load_config_file(cfg, Deserializers::default()).map_err(|e| e.to_string())?;
-    let logger = log4rs::Logger::new(config);
-    for k in 0..records {
-        log::Log::log(
-            &logger,
-            &log::Record::builder().level(log::Level::Info).target("c19").args(format_args!("{}", k)).build(),
-        );
-    }
-    log::Log::flush(&logger);
-    drop(logger);
-    Ok(())
+fn os_entries(env: &[EnvEntry], dir: Option<&Path>) -> Vec<(OsString, OsString)> {
+    env.iter()
+        .map(|e| match e {
+            EnvEntry::Text(k, v) => (OsString::from(k.clone()), OsString::from(subst_scratch(v, dir))),
+            EnvEntry::Bytes(k, v) => (OsString::from_vec(k.clone()), OsString::from_vec(v.clone())),
+        })
+        .collect()
 }
 
 fn content_text(c: &[u8]) -> String {
@@ -597,6 +696,33 @@ fn content_text(c: &[u8]) -> String {
     } else {
         format!("x{}", enc_bytes(c))
     }
+}
+
+/// every directory (`d:<path>`) and every file (`f:<path>=<content>`) below `root`
+fn walk(root: &Path, rel: &str, out: &mut Vec<String>) {
+    let entries: Vec<_> = match std::fs::read_dir(root) {
+        Ok(r) => r.filter_map(|e| e.ok()).collect(),
+        Err(_) => return,
+    };
+    for e in entries {
+        let name = e.file_name().to_string_lossy().into_owned();
+        let rel2 = if rel.is_empty() { name.clone() } else { format!("{}/{}", rel, name) };
+        let p = e.path();
+        let is_dir = std::fs::symlink_metadata(&p).map(|m| m.is_dir()).unwrap_or(false);
+        if is_dir {
+            out.push(format!("d:{}", enc_str(&rel2)));
+            walk(&p, &rel2, out);
+        } else {
+            out.push(format!("f:{}={}", enc_str(&rel2), content_text(&std::fs::read(&p).unwrap_or_default())));
+        }
+    }
+}
+
+fn entries(dir: &Path) -> String {
+    let mut items = Vec::new();
+    walk(dir, "", &mut items);
+    items.sort();
+    enc_list(",", &items)
 }
 
 /// files below `dir` the process currently holds open
@@ -615,196 +741,421 @@ fn open_files_under(dir: &Path) -> Vec<String> {
     out
 }
 
-/// one step of a history: `<file>=<content>,…;open=<file held open|->`
+/// one step of a history: `<entries>;open=<file held open|->`
 fn snapshot(dir: &Path) -> String {
-    let mut files = Vec::new();
-    list_files(dir, "", &mut files);
-    let mut items: Vec<String> = files.iter().map(|(p, c)| format!("{}={}", enc_str(p), content_text(c))).collect();
-    items.sort();
     let open = open_files_under(dir);
     format!(
         "{};open={}",
-        enc_list(",", &items),
+        entries(dir),
         if open.is_empty() { "-".to_owned() } else { open.iter().map(|p| enc_str(p)).collect::<Vec<_>>().join("+") }
     )
 }
 
-/// like `in_scratch`, but the closure produces the observation itself; it gets the configuration
-/// file path and the (canonical) scratch directory it runs in
-fn in_scratch_obs(f: impl FnOnce(&Path, &Path) -> Result<String, String> + std::panic::UnwindSafe) -> String {
+/// does `p` (as the process would resolve it from `dir`) stay inside `dir`?
+fn stays_inside(p: &str, dir: &Path) -> bool {
+    let rest: String = if p.starts_with('/') {
+        match p.strip_prefix(&*dir.to_string_lossy()) {
+            Some(r) if r.is_empty() || r.starts_with('/') => r.to_owned(),
+            _ => return false,
+        }
+    } else {
+        p.to_owned()
+    };
+    let mut depth: i64 = 0;
+    for c in rest.split('/') {
+        match c {
+            "" | "." => {}
+            ".." => {
+                depth -= 1;
+                if depth < 0 {
+                    return false;
+                }
+            }
+            _ => depth += 1,
+        }
+    }
+    // the scratch directory may only appear at the very start (the `/SCRATCH` device)
+    let d = dir.to_string_lossy();
+    let tail = p.char_indices().nth(1).map(|(i, _)| i).unwrap_or(p.len());
+    !p.contains('\0') && !p[tail..].contains(&*d)
+}
+
+/// number of threads of this process: above the baseline = a background rotation is running
+fn n_threads() -> usize {
+    std::fs::read_dir("/proc/self/task").map(|d| d.count()).unwrap_or(1)
+}
+
+fn wait_quiescent(baseline: usize) {
+    let t0 = std::time::Instant::now();
+    while n_threads() > baseline && t0.elapsed() < std::time::Duration::from_secs(60) {
+        std::thread::sleep(std::time::Duration::from_micros(200));
+    }
+}
+
+struct Scratch {
+    dir: PathBuf,
+    cfg_stem: PathBuf,
+}
+
+/// Runs `f` with a fresh scratch directory as current directory and the case's environment
+/// installed (after the `/SCRATCH` substitution); cleans up afterwards.
+fn in_scratch(
+    env: &[EnvEntry],
+    guard_paths: &dyn Fn(&Path) -> Vec<String>,
+    f: impl FnOnce(&Scratch) -> Result<String, String> + std::panic::UnwindSafe,
+) -> String {
     let root = init();
     let n = COUNTER.fetch_add(1, Ordering::SeqCst);
     let dir = root.join(format!("c19_{}_{}", std::process::id(), n));
-    let cfg = root.join(format!("c19_{}_{}.yaml", std::process::id(), n));
+    let cfg_stem = root.join(format!("c19_{}_{}_cfg", std::process::id(), n));
     if std::fs::create_dir_all(&dir).is_err() || std::env::set_current_dir(&dir).is_err() {
         return "scratch-error".to_owned();
     }
-    let canon = std::fs::canonicalize(&dir).unwrap_or_else(|_| dir.clone());
-    let cfg2 = cfg.clone();
-    let r = guarded(move || f(&cfg2, &canon));
+    let os = os_entries(env, Some(&dir));
+    for (k, v) in os.iter().rev() {
+        std::env::set_var(k, v);
+    }
+    // safety: every location the case is going to use must stay inside the scratch directory
+    let safe = guard_paths(&dir).iter().all(|given| {
+        let g = given.clone();
+        match guarded(move || log4rs::verif_hooks::expand_env_vars(&g)) {
+            Ok(loc) => stays_inside(&loc, &dir),
+            Err(_) => true, // a panic will show as the observation
+        }
+    });
+    let sc = Scratch { dir: dir.clone(), cfg_stem: cfg_stem.clone() };
+    let r = if safe { Some(guarded(move || f(&sc))) } else { None };
+    for (k, _) in os.iter() {
+        std::env::remove_var(k);
+    }
     let _ = std::env::set_current_dir(root);
     let _ = std::fs::remove_dir_all(&dir);
-    let _ = std::fs::remove_file(&cfg);
-    match r {
-        Err(_) => "PANIC".to_owned(),
-        Ok(Err(_)) => "err".to_owned(),
-        Ok(Ok(obs)) => obs,
+    for ext in ["yaml", "json", "toml"] {
+        let _ = std::fs::remove_file(cfg_stem.with_extension(ext));
     }
+    match r {
+        None => "bad-case".to_owned(),
+        Some(Err(_)) => "PANIC".to_owned(),
+        Some(Ok(Err(_))) => "err".to_owned(),
+        Some(Ok(Ok(obs))) => obs,
+    }
+}
+
+/// a YAML double-quoted / JSON / TOML basic string (the JSON string syntax is valid in all three)
+fn quoted(s: &str) -> String {
+    serde_json::to_string(s).unwrap()
 }
 
 fn digit_record(k: u32, f: &mut dyn FnMut(&log::Record)) {
     f(&log::Record::builder().level(log::Level::Info).target("c19").args(format_args!("{}", k % 10)).build());
 }
 
+/// load the configuration file and build the logger (not installed globally); `Err` when the
+/// configuration does not yield its one appender
+fn load_logger(sc: &Scratch, ext: &str, doc: &str) -> Result<log4rs::Logger, String> {
+    let cfg = sc.cfg_stem.with_extension(ext);
+    std::fs::write(&cfg, doc).map_err(|e| e.to_string())?;
+    let config = load_config_file(&cfg, Deserializers::default()).map_err(|e| e.to_string())?;
+    if config.appenders().len() != 1 {
+        return Err("appender not built".to_owned());
+    }
+    Ok(log4rs::Logger::new(config))
+}
+
+fn file_config_doc(kind: &str, path: &str) -> (&'static str, String) {
+    match kind {
+        "file-json" => (
+            "json",
+            format!(
+                "{{\"appenders\":{{\"out\":{{\"kind\":\"file\",\"path\":{},\"encoder\":{{\"pattern\":\"{{m}}\"}}}}}},\"root\":{{\"level\":\"info\",\"appenders\":[\"out\"]}}}}",
+                quoted(path)
+            ),
+        ),
+        "file-toml" => (
+            "toml",
+            format!(
+                "[appenders.out]\nkind = \"file\"\npath = {}\n[appenders.out.encoder]\npattern = \"{{m}}\"\n[root]\nlevel = \"info\"\nappenders = [\"out\"]\n",
+                quoted(path)
+            ),
+        ),
+        _ => (
+            "yaml",
+            format!(
+                "appenders:\n  out:\n    kind: file\n    path: {}\n    encoder:\n      pattern: \"{{m}}\"\nroot:\n  level: info\n  appenders: [out]\n",
+                quoted(path)
+            ),
+        ),
+    }
+}
+
+fn exec_file(kind: &str, env: &[EnvEntry], given: Vec<u8>) -> String {
+    let given_text = String::from_utf8_lossy(&given).into_owned();
+    let gt = given_text.clone();
+    let kind = kind.to_owned();
+    in_scratch(
+        env,
+        &move |dir| vec![subst_scratch(&gt, Some(dir))],
+        move |sc| {
+            if kind == "file" || kind == "file-os" {
+                use std::os::unix::ffi::OsStrExt;
+                let bytes = if kind == "file" { subst_scratch(&given_text, Some(&sc.dir)).into_bytes() } else { given.clone() };
+                let a = FileAppender::builder()
+                    .encoder(Box::new(PatternEncoder::new("{m}")))
+                    .build(std::ffi::OsStr::from_bytes(&bytes))
+                    .map_err(|e| e.to_string())?;
+                for k in 0..2 {
+                    digit_record(k, &mut |r| {
+                        let _ = a.append(r);
+                    });
+                }
+                drop(a);
+            } else {
+                let (ext, doc) = file_config_doc(&kind, &subst_scratch(&given_text, Some(&sc.dir)));
+                let logger = load_logger(sc, ext, &doc)?;
+                for k in 0..2 {
+                    digit_record(k, &mut |r| log::Log::log(&logger, r));
+                }
+                log::Log::flush(&logger);
+                drop(logger);
+            }
+            Ok(format!("tree:{}", entries(&sc.dir)))
+        },
+    )
+}
+
+struct RollingOpts {
+    fw: bool,
+    appends: u32,
+    pattern: String,
+    time: bool,
+    bg: bool,
+}
+
+fn exec_rolling(kind: &str, env: &[EnvEntry], path: String, o: RollingOpts) -> String {
+    let (p1, pat1) = (path.clone(), o.pattern.clone());
+    let fw = o.fw;
+    let cfg_kind = kind == "rolling-cfg";
+    in_scratch(
+        env,
+        &move |dir| {
+            let mut v = vec![subst_scratch(&p1, Some(dir))];
+            if fw {
+                for i in 0..3 {
+                    v.push(subst_scratch(&pat1, Some(dir)).replace("{}", &i.to_string()));
+                }
+            }
+            v
+        },
+        move |sc| {
+            let path = subst_scratch(&path, Some(&sc.dir));
+            let pattern = subst_scratch(&o.pattern, Some(&sc.dir));
+            let baseline = n_threads();
+            NOW.store(T0, Ordering::SeqCst);
+            let mut steps: Vec<String> = Vec::new();
+            let mut after = |steps: &mut Vec<String>| {
+                if o.bg {
+                    wait_quiescent(baseline);
+                }
+                steps.push(snapshot(&sc.dir));
+            };
+            if !cfg_kind {
+                let roller: Box<dyn Roll> = if o.fw {
+                    Box::new(FixedWindowRoller::builder().build(&pattern, 2).map_err(|e| e.to_string())?)
+                } else {
+                    Box::new(DeleteRoller::new())
+                };
+                let trigger: Box<dyn Trigger> = if o.time {
+                    Box::new(TimeTrigger::new(TimeTrigger::verif_config(TimeTriggerInterval::Second(10), false, 0)))
+                } else {
+                    Box::new(SizeTrigger::new(2))
+                };
+                let policy = CompoundPolicy::new(trigger, roller);
+                let a = RollingFileAppender::builder()
+                    .encoder(Box::new(PatternEncoder::new("{m}")))
+                    .build(&path, Box::new(policy))
+                    .map_err(|e| e.to_string())?;
+                after(&mut steps);
+                for k in 0..o.appends {
+                    NOW.store(T0 + 100 * k as i64, Ordering::SeqCst);
+                    digit_record(k, &mut |r| {
+                        let _ = a.append(r);
+                    });
+                    after(&mut steps);
+                }
+                drop(a);
+            } else {
+                let roller = if o.fw {
+                    format!("        kind: fixed_window\n        pattern: {}\n        count: 2\n", quoted(&pattern))
+                } else {
+                    "        kind: delete\n".to_owned()
+                };
+                let trigger = if o.time {
+                    "        kind: time\n        interval: 10 seconds\n"
+                } else {
+                    "        kind: size\n        limit: 2\n"
+                };
+                let doc = format!(
+                    "appenders:\n  out:\n    kind: rolling_file\n    path: {}\n    encoder:\n      pattern: \"{{m}}\"\n    policy:\n      kind: compound\n      trigger:\n{}      roller:\n{}root:\n  level: info\n  appenders: [out]\n",
+                    quoted(&path), trigger, roller
+                );
+                let logger = load_logger(sc, "yaml", &doc)?;
+                after(&mut steps);
+                for k in 0..o.appends {
+                    NOW.store(T0 + 100 * k as i64, Ordering::SeqCst);
+                    digit_record(k, &mut |r| log::Log::log(&logger, r));
+                    after(&mut steps);
+                }
+                drop(logger);
+            }
+            Ok(format!("hist:{}", steps.join("|")))
+        },
+    )
+}
+
+fn exec_roller(kind: &str, env: &[EnvEntry], pattern: String, base: u32, count: u32, rolls: u32, bg: bool) -> String {
+    let pat1 = pattern.clone();
+    let cfg_kind = kind == "roller-cfg";
+    in_scratch(
+        env,
+        &move |dir| {
+            (0..=count.min(8)).map(|j| subst_scratch(&pat1, Some(dir)).replace("{}", &(base as u64 + j as u64).to_string())).collect()
+        },
+        move |sc| {
+            let pattern = subst_scratch(&pattern, Some(&sc.dir));
+            let baseline = n_threads();
+            if !cfg_kind {
+                let roller = FixedWindowRoller::builder().base(base).build(&pattern, count).map_err(|e| e.to_string())?;
+                for k in 0..rolls {
+                    std::fs::write("cur.log", (k % 10).to_string()).map_err(|e| e.to_string())?;
+                    roller.roll(Path::new("cur.log")).map_err(|e| e.to_string())?;
+                    if bg {
+                        wait_quiescent(baseline);
+                    }
+                }
+            } else {
+                // every record exceeds the size limit 0, so every record forces one roll
+                let doc = format!(
+                    "appenders:\n  out:\n    kind: rolling_file\n    path: \"cur.log\"\n    encoder:\n      pattern: \"{{m}}\"\n    policy:\n      kind: compound\n      trigger:\n        kind: size\n        limit: 0\n      roller:\n        kind: fixed_window\n        pattern: {}\n        base: {}\n        count: {}\nroot:\n  level: info\n  appenders: [out]\n",
+                    quoted(&pattern), base, count
+                );
+                let logger = load_logger(sc, "yaml", &doc)?;
+                // the appender created `cur.log` at build; the model's history starts without it
+                for k in 0..rolls {
+                    digit_record(k, &mut |r| log::Log::log(&logger, r));
+                    if bg {
+                        wait_quiescent(baseline);
+                    }
+                }
+                drop(logger);
+                if rolls == 0 {
+                    let _ = std::fs::remove_file("cur.log");
+                }
+            }
+            Ok(format!("tree:{}", entries(&sc.dir)))
+        },
+    )
+}
+
 pub fn exec(fields: &[&str]) -> String {
     init();
+    let (fields, bg) = match fields.last() {
+        Some(&"@bg") => (&fields[..fields.len() - 1], true),
+        _ => (fields, false),
+    };
     if fields.len() < 3 {
         return "bad-case".to_owned();
     }
     let kind = fields[0];
-    let (env, path) = match (dec_env(fields[1]), dec_str(fields[2])) {
-        (Some(e), Some(p)) => (e, p),
-        _ => return "bad-case".to_owned(),
+    let env = match dec_env(fields[1]) {
+        Some(e) => e,
+        None => return "bad-case".to_owned(),
     };
     {
+        let os = os_entries(&env, None);
         use std::os::unix::ffi::OsStrExt;
-        if env.iter().any(|(k, v)| {
+        if os.iter().any(|(k, v)| {
             let (k, v) = (k.as_bytes(), v.as_bytes());
             k.is_empty() || k.contains(&b'=') || k.contains(&0) || v.contains(&0)
         }) {
             return "bad-case".to_owned();
         }
     }
-    // first entry wins, as in the model's association list
-    for (k, v) in env.iter().rev() {
-        std::env::set_var(k, v);
-    }
-    let obs = match (kind, fields.len()) {
+    match (kind, fields.len()) {
         ("hook", 3) => {
-            let p = path.clone();
-            match guarded(move || log4rs::verif_hooks::expand_env_vars(&p)) {
+            let path = match dec_str(fields[2]) {
+                Some(p) => p,
+                None => return "bad-case".to_owned(),
+            };
+            let os = os_entries(&env, None);
+            // first entry wins, as in the model's association list
+            for (k, v) in os.iter().rev() {
+                std::env::set_var(k, v);
+            }
+            let obs = match guarded(move || log4rs::verif_hooks::expand_env_vars(&path)) {
                 Ok(s) => format!("ok:{}", enc_str(&s)),
                 Err(_) => "PANIC".to_owned(),
+            };
+            for (k, _) in os.iter() {
+                std::env::remove_var(k);
             }
+            obs
         }
-        ("file", 3) => {
-            let p = path.clone();
-            in_scratch(
-                move |_| {
-                    let a = FileAppender::builder().build(&p).map_err(|e| e.to_string())?;
-                    drop(a);
-                    Ok(())
-                },
-                Content::None,
-            )
-        }
-        ("rolling", 3) | ("rolling", 5) | ("rolling-cfg", 3) | ("rolling-cfg", 5) => {
-            let (fw, appends) = if fields.len() == 5 {
+        ("file-os", 3) => match dec_bytes(fields[2]) {
+            Some(b) if !b.contains(&0) => exec_file(kind, &env, b),
+            _ => "bad-case".to_owned(),
+        },
+        ("file", 3) | ("file-cfg", 3) | ("file-json", 3) | ("file-toml", 3) => match dec_str(fields[2]) {
+            Some(p) => exec_file(kind, &env, p.into_bytes()),
+            None => "bad-case".to_owned(),
+        },
+        ("rolling", 3) | ("rolling", 5) | ("rolling", 7) | ("rolling-cfg", 3) | ("rolling-cfg", 5) | ("rolling-cfg", 7) => {
+            let path = match dec_str(fields[2]) {
+                Some(p) => p,
+                None => return "bad-case".to_owned(),
+            };
+            let mut o = RollingOpts { fw: true, appends: 8, pattern: "r.{}.log".to_owned(), time: false, bg };
+            if fields.len() >= 5 {
                 match (fields[3], fields[4].parse::<u32>().ok()) {
-                    ("fw", Some(a)) if a <= 10 => (true, a),
-                    ("del", Some(a)) if a <= 10 => (false, a),
+                    ("fw", Some(a)) if a <= 10 => o.appends = a,
+                    ("del", Some(a)) if a <= 10 => {
+                        o.fw = false;
+                        o.appends = a
+                    }
                     _ => return "bad-case".to_owned(),
                 }
-            } else {
-                (true, 8)
-            };
-            let p = path.clone();
-            if kind == "rolling" {
-                in_scratch_obs(move |_, dir| {
-                    let roller: Box<dyn Roll> = if fw {
-                        Box::new(FixedWindowRoller::builder().build("r.{}.log", 2).map_err(|e| e.to_string())?)
-                    } else {
-                        Box::new(DeleteRoller::new())
-                    };
-                    let policy = CompoundPolicy::new(Box::new(SizeTrigger::new(2)), roller);
-                    let a = RollingFileAppender::builder()
-                        .encoder(Box::new(PatternEncoder::new("{m}")))
-                        .build(&p, Box::new(policy))
-                        .map_err(|e| e.to_string())?;
-                    let mut steps = vec![snapshot(dir)];
-                    for k in 0..appends {
-                        digit_record(k, &mut |r| {
-                            let _ = a.append(r);
-                        });
-                        steps.push(snapshot(dir));
-                    }
-                    drop(a);
-                    Ok(format!("hist:{}", steps.join("|")))
-                })
-            } else {
-                let roller = if fw {
-                    "        kind: fixed_window\n        pattern: \"r.{}.log\"\n        count: 2\n"
-                } else {
-                    "        kind: delete\n"
-                };
-                let yaml = format!(
-                    "appenders:\n  out:\n    kind: rolling_file\n    path: {}\n    encoder:\n      pattern: \"{{m}}\"\n    policy:\n      kind: compound\n      trigger:\n        kind: size\n        limit: 2\n      roller:\n{}root:\n  level: info\n  appenders: [out]\n",
-                    yaml_str(&p), roller
-                );
-                in_scratch_obs(move |cfg, dir| {
-                    std::fs::write(cfg, &yaml).map_err(|e| e.to_string())?;
-                    let config = load_config_file(cfg, Deserializers::default()).map_err(|e| e.to_string())?;
-                    let logger = log4rs::Logger::new(config);
-                    let mut steps = vec![snapshot(dir)];
-                    for k in 0..appends {
-                        digit_record(k, &mut |r| log::Log::log(&logger, r));
-                        steps.push(snapshot(dir));
-                    }
-                    drop(logger);
-                    Ok(format!("hist:{}", steps.join("|")))
-                })
             }
-        }
-        ("file-cfg", 3) => {
-            let yaml = format!(
-                "appenders:\n  out:\n    kind: file\n    path: {}\n    encoder:\n      pattern: \"{{m}}\"\nroot:\n  level: info\n  appenders: [out]\n",
-                yaml_str(&path)
-            );
-            in_scratch(move |cfg| run_config(cfg, &yaml, 1), Content::None)
-        }
-        ("roller-cfg", 6) => {
-            let nums: Vec<Option<u32>> = fields[3..6].iter().map(|s| s.parse().ok()).collect();
-            match (nums[0], nums[1], nums[2]) {
-                (Some(base), Some(count), Some(rolls)) if rolls < 200 => {
-                    // every record exceeds the size limit 0, so every record forces one roll
-                    let yaml = format!(
-                        "appenders:\n  out:\n    kind: rolling_file\n    path: \"cur.log\"\n    encoder:\n      pattern: \"{{m}}\"\n    policy:\n      kind: compound\n      trigger:\n        kind: size\n        limit: 0\n      roller:\n        kind: fixed_window\n        pattern: {}\n        base: {}\n        count: {}\nroot:\n  level: info\n  appenders: [out]\n",
-                        yaml_str(&path), base, count
-                    );
-                    in_scratch(move |cfg| run_config(cfg, &yaml, rolls), Content::Digits)
+            if fields.len() == 7 {
+                if fields[5] != "-" {
+                    match dec_str(fields[5]) {
+                        Some(p) => o.pattern = p,
+                        None => return "bad-case".to_owned(),
+                    }
                 }
-                _ => "bad-case".to_owned(),
+                match fields[6] {
+                    "size" => {}
+                    "time" => o.time = true,
+                    _ => return "bad-case".to_owned(),
+                }
             }
+            exec_rolling(kind, &env, path, o)
         }
-        ("roller", 6) => {
+        ("roller", 6) | ("roller-cfg", 6) => {
+            let pattern = match dec_str(fields[2]) {
+                Some(p) => p,
+                None => return "bad-case".to_owned(),
+            };
             let nums: Vec<Option<u32>> = fields[3..6].iter().map(|s| s.parse().ok()).collect();
             match (nums[0], nums[1], nums[2]) {
-                (Some(base), Some(count), Some(rolls)) if rolls < 200 => {
-                    let p = path.clone();
-                    in_scratch(
-                        move |_| {
-                            let roller = FixedWindowRoller::builder().base(base).build(&p, count).map_err(|e| e.to_string())?;
-                            for k in 0..rolls {
-                                std::fs::write("cur.log", [k as u8]).map_err(|e| e.to_string())?;
-                                roller.roll(Path::new("cur.log")).map_err(|e| e.to_string())?;
-                            }
-                            Ok(())
-                        },
-                        Content::Raw,
-                    )
+                (Some(base), Some(count), Some(rolls)) if rolls <= 20 && count <= 8 => {
+                    exec_roller(kind, &env, pattern, base, count, rolls, bg)
                 }
                 _ => "bad-case".to_owned(),
             }
         }
         _ => "bad-case".to_owned(),
-    };
-    for (k, _) in env.iter() {
-        std::env::remove_var(k);
     }
-    obs
 }
 
-/// child-process entry point (unused by this property)
 pub fn child(_args: &[String]) -> i32 {
     2
 }
